@@ -11,6 +11,12 @@ spec -> code : TLC emits the required value of every function for every basis fi
                with the standard parametrisation, re-timed ones, the reversed one and (circulation) a curved surface
                spanned by the same curve.  Every result must be a NUMBER free of coordinate / parameter symbols and
                equal the model's exact value (compared as rational + rational*pi).
+               Regions include parameter domains with dependent limits (triangles; tetrahedra with
+               flux_across_volume_boundary limits depending on the outer variables), planar problems whose field
+               components depend on z (taken at z = 0 by two-component curves / surfaces), and cylindrical shells /
+               balls where flux_across_volume_boundary is called in the cylindrical / spherical system (fields given
+               natively as r^a z^c e_i, which the model knows as Cartesian polynomial fields) and compared with the
+               flux through the faces.
 code -> spec : all results are written to a JSON trace; spec/IntegralsTrace.tla lets TLC recompute the required value
                from the coefficient maps and reject records that are not that number.
 """
@@ -37,18 +43,31 @@ TIERS = {
                             dict(D=3, MaxDeg=2, MaxTerms=2, EmitDeg=2, EmitTerms=2, Regions="<-RegionsQuick")],
                      curved=True),
 }
-MODEL_INVARIANTS = ["ITypeOK", "Stokes", "Green", "Gauss", "ReverseNegates", "SpeedCancels", "DivCurlZero"]
+MODEL_INVARIANTS = ["ITypeOK", "Stokes", "Green", "Gauss", "GaussNative", "ReverseNegates", "SpeedCancels", "DivCurlZero"]
 TRACE_D = 3
 CALL_LIMIT = 60
 
 T, S_, U, V = sp.symbols("t_par s_par u_par v_par", real=True)
 CART = []
+CURV = {}
 
 
 def _init():
     from symplyphysics.core.coordinate_systems.coordinate_systems import CoordinateSystem
     if not CART:
         CART.append(CoordinateSystem())
+        CURV["cyl"] = CoordinateSystem(CoordinateSystem.System.CYLINDRICAL)
+        CURV["sph"] = CoordinateSystem(CoordinateSystem.System.SPHERICAL)
+
+
+def _coords(p):
+    return [p.coordinate(0), p.coordinate(1), p.coordinate(2)]
+
+
+def make_curv_field(system, comps):
+    """The Cartesian polynomial field written in the coordinates and the local frame of `system`."""
+    from symplyphysics.core.fields.vector_field import VectorField
+    return VectorField(lambda p: fc.vector_in(system, comps, _coords(p)), CURV[system])
 
 
 def make_field(comps):
@@ -64,6 +83,14 @@ def region_name(reg):
         return f"ellipse(centre=({r(c[0])},{r(c[1])}),z={r(c[2])},semi-axes=({r(s[0])},{r(s[1])}))"
     if reg["k"] == "rect":
         return f"rect([{r(c[0])},{r(s[0])}]x[{r(c[1])},{r(s[1])}],z={r(c[2])})"
+    if reg["k"] == "tri":
+        return f"triangle(corner=({r(c[0])},{r(c[1])}),z={r(c[2])},legs=({r(s[0])},{r(s[1])}))"
+    if reg["k"] == "tet":
+        return f"tetrahedron(corner=({r(c[0])},{r(c[1])},{r(c[2])}),edges=({r(s[0])},{r(s[1])},{r(s[2])}))"
+    if reg["k"] == "shell":
+        return f"shell({r(c[0])}<=r<={r(s[0])},{r(c[1])}<=z<={r(s[1])})"
+    if reg["k"] == "ball":
+        return f"ball(R={r(s[0])})"
     return f"box([{r(c[0])},{r(s[0])}]x[{r(c[1])},{r(s[1])}]x[{r(c[2])},{r(s[2])}])"
 
 
@@ -94,10 +121,7 @@ def ell_surface(reg, variant, planar2d):
     return (surf, pt, ps) if variant == "rev" else (surf, ps, pt)
 
 
-def rect_edges(reg, variant, planar2d):
-    x0, y0, h = [fc.rat(v) for v in reg["c"]]
-    x1, y1 = fc.rat(reg["s"][0]), fc.rat(reg["s"][1])
-    corners = [(x0, y0), (x1, y0), (x1, y1), (x0, y1), (x0, y0)]
+def _edges(corners, h, variant, planar2d):
     tt, lim = {"std": (T, (T, 0, 1)), "retime": (2 * T, (T, 0, sp.Rational(1, 2))), "shift": (T - 1, (T, 1, 2)),
                "rev": (T, (T, 0, 1))}[variant]
     out = []
@@ -109,6 +133,83 @@ def rect_edges(reg, variant, planar2d):
             traj.append(h)
         out.append((traj, lim))
     return out
+
+
+def rect_edges(reg, variant, planar2d):
+    x0, y0, h = [fc.rat(v) for v in reg["c"]]
+    x1, y1 = fc.rat(reg["s"][0]), fc.rat(reg["s"][1])
+    return _edges([(x0, y0), (x1, y0), (x1, y1), (x0, y1), (x0, y0)], h, variant, planar2d)
+
+
+def tri_edges(reg, variant, planar2d):
+    x0, y0, h = [fc.rat(v) for v in reg["c"]]
+    a, b = fc.rat(reg["s"][0]), fc.rat(reg["s"][1])
+    return _edges([(x0, y0), (x0 + a, y0), (x0, y0 + b), (x0, y0)], h, variant, planar2d)
+
+
+def tri_surface(reg, variant, planar2d):
+    """The triangle as a parametrised surface; the limits of the FIRST parameter depend on the second one."""
+    x0, y0, h = [fc.rat(v) for v in reg["c"]]
+    a, b = fc.rat(reg["s"][0]), fc.rat(reg["s"][1])
+    uu, vv = U, V
+    p1, p2 = (U, 0, 1 - V), (V, 0, 1)
+    if variant == "retime":
+        uu, vv, p1, p2 = 2 * U, 3 * V, (U, 0, (1 - 3 * V) / 2), (V, 0, sp.Rational(1, 3))
+    elif variant == "rev":
+        p1, p2 = (V, 0, 1 - U), (U, 0, 1)
+    if variant == "direct":        # the coordinates themselves as parameters
+        surf = [U, V]
+        p1, p2 = (U, x0, x0 + a * (1 - (V - y0) / b)), (V, y0, y0 + b)
+    else:
+        surf = [x0 + a * uu, y0 + b * vv]
+    if variant == "curved":
+        surf.append(h + uu * vv * (1 - uu - vv))
+    elif not planar2d:
+        surf.append(h)
+    return surf, p1, p2
+
+
+def tet_faces(reg, variant):
+    x0, y0, z0 = [fc.rat(v) for v in reg["c"]]
+    a, b, c = [fc.rat(v) for v in reg["s"]]
+    k = 2 if variant == "retime" else 1
+    u, v = k * U, k * V
+    p1, p2 = (U, 0, (1 - k * V) / k), (V, 0, sp.Rational(1, k))
+    return [([x0 + a * u, y0 + b * v, z0 + c * (1 - u - v)], p1, p2),      # slanted face, normal (bc, ac, ab)
+            ([x0, y0 + b * v, z0 + c * u], p1, p2),                        # e_z x e_y = -e_x
+            ([x0 + a * u, y0, z0 + c * v], p1, p2),                        # e_x x e_z = -e_y
+            ([x0 + a * v, y0 + b * u, z0], p1, p2)]                        # e_y x e_x = -e_z
+
+
+def tet_limits(reg):
+    x, y, _ = CART[0].coord_system.base_scalars()
+    x0, y0, z0 = [fc.rat(v) for v in reg["c"]]
+    a, b, c = [fc.rat(v) for v in reg["s"]]
+    return [(x0, x0 + a), (y0, y0 + b * (1 - (x - x0) / a)), (z0, z0 + c * (1 - (x - x0) / a - (y - y0) / b))]
+
+
+def shell_faces(reg, variant):
+    r0, z0 = fc.rat(reg["c"][0]), fc.rat(reg["c"][1])
+    r1, z1 = fc.rat(reg["s"][0]), fc.rat(reg["s"][1])
+    k = 2 if variant == "retime" else 1
+    ang, full = k * U, (U, 0, 2 * pi / k)
+    return [([r1 * cos(ang), r1 * sin(ang), V], full, (V, z0, z1)),             # outer wall, normal +e_r
+            ([r0 * cos(ang), r0 * sin(ang), V], (V, z0, z1), full),             # inner wall, normal -e_r
+            ([V * cos(ang), V * sin(ang), z1], (V, r0, r1), full),              # top, +e_z
+            ([V * cos(ang), V * sin(ang), z0], full, (V, r0, r1))]              # bottom, -e_z
+
+
+def ball_faces(reg, variant):
+    rad = fc.rat(reg["s"][0])
+    k = 2 if variant == "retime" else 1
+    az = k * V
+    return [([rad * sin(U) * cos(az), rad * sin(U) * sin(az), rad * cos(U)], (U, 0, pi), (V, 0, 2 * pi / k))]
+
+
+def curv_limits(reg):
+    if reg["k"] == "shell":
+        return "cyl", [(fc.rat(reg["c"][0]), fc.rat(reg["s"][0])), (0, 2 * pi), (fc.rat(reg["c"][1]), fc.rat(reg["s"][1]))]
+    return "sph", [(0, fc.rat(reg["s"][0])), (0, 2 * pi), (0, pi)]
 
 
 def rect_surface(reg, variant, planar2d):
@@ -159,9 +260,9 @@ def _value(v):
     return fc.rat(v["q"]) + fc.rat(v["p"]) * pi
 
 
-def _run(out, lib, fnclass, comps, reg, variant, rev, expected, thunks):
+def _run(out, lib, fnclass, comps, reg, variant, rev, expected, thunks, name=None):
     """thunks: callables each returning one library result; the value of the call is their sum."""
-    name = fc.field_name(comps)
+    name = name or fc.field_name(comps)
     key = f"{lib}:{name}:{region_name(reg)}"
     total = sp.S.Zero
     for th in thunks:
@@ -214,9 +315,28 @@ def replay_case(case):
         _run(out, "flux_across_volume_boundary", "flux3", comps3, reg, "std", False, case["flux3"],
              [lambda: an.flux_across_volume_boundary(field3, *lims)])
         return out.result()
+    if reg["k"] == "tet":
+        for variant in ("std", "retime"):
+            _run(out, "flux_across_surface", "flux3", comps3, reg, variant, False, case["flux3"],
+                 [lambda f=f: an.flux_across_surface(field3, *f) for f in tet_faces(reg, variant)])
+        _run(out, "flux_across_volume_boundary", "flux3", comps3, reg, "dependent limits", False, case["flux3"],
+             [lambda: an.flux_across_volume_boundary(field3, *tet_limits(reg))])
+        return out.result()
+    if reg["k"] in ("shell", "ball"):
+        faces = shell_faces if reg["k"] == "shell" else ball_faces
+        for variant in ("std", "retime"):
+            _run(out, "flux_across_surface", "flux3", comps3, reg, variant, False, case["flux3"],
+                 [lambda f=f: an.flux_across_surface(field3, *f) for f in faces(reg, variant)])
+        system, lims = curv_limits(reg)
+        if system == "cyl" or case.get("curved"):      # the spherical re-expression is slow (simplify): thorough only
+            fieldc = make_curv_field(system, comps3)
+            _run(out, "flux_across_volume_boundary", "flux3", comps3, reg, f"{system} system, re-expressed field", False,
+                 case["flux3"], [lambda: an.flux_across_volume_boundary(fieldc, *lims)])
+        return out.result()
     in_plane0 = fc.rat(reg["c"][2]) == 0
-    curve = ell_curve if reg["k"] == "ell" else rect_edges
-    surface = ell_surface if reg["k"] == "ell" else rect_surface
+    curve, surface = {"ell": (ell_curve, ell_surface), "rect": (rect_edges, rect_surface),
+                      "tri": (tri_edges, tri_surface)}[reg["k"]]
+    extra = ("direct",) if reg["k"] == "tri" else ()
     # circulation: along the curve, and from the curl over a surface spanned by it
     for variant in ("std", "retime", "shift", "rev"):
         exp = case["circrev"] if variant == "rev" else case["circ"]
@@ -224,7 +344,7 @@ def replay_case(case):
         _run(out, "circulation_along_curve", "circ", comps3, reg, variant, variant == "rev", exp,
              [lambda tr=tr, lim=lim: an.circulation_along_curve(field3, tr, lim)
               for tr, lim in curve(reg, variant, planar2d)])
-    for variant in ("std", "retime", "rev") + (("curved",) if curved else ()):
+    for variant in ("std", "retime", "rev") + extra + (("curved",) if curved else ()):
         exp = case["circrev"] if variant == "rev" else case["circ"]
         surf, p1, p2 = surface(reg, variant, in_plane0 and variant == "std")
         _run(out, "circulation_along_surface_boundary", "circ", comps3, reg, variant, variant == "rev", exp,
@@ -238,11 +358,54 @@ def replay_case(case):
             _run(out, "flux_across_curve", "flux2", comps2, reg, variant, variant == "rev", exp,
                  [lambda tr=tr, lim=lim: an.flux_across_curve(field2, tr, lim)
                   for tr, lim in curve(reg, variant, True)])
-        for variant in ("std", "retime"):
+        for variant in ("std", "retime") + extra:
             surf, p1, p2 = surface(reg, variant, True)
             _run(out, "flux_across_surface_boundary", "flux2", comps2, reg, variant, False, case["flux2"],
                  [lambda: an.flux_across_surface_boundary(field2, surf, p1, p2)])
     return out.result()
+
+
+# ---- fields given natively in cylindrical / spherical components (emitted by INativeEmit) -----------------
+def replay_native(case):
+    from symplyphysics.core.fields import analysis as an
+    from symplyphysics.core.fields.vector_field import VectorField
+    _init()
+    out = Out(case)
+    n, reg = case["native"], case["reg"]
+    system, lims = curv_limits(reg)
+    if n["sys"] != system:
+        raise RuntimeError(f"native field {n} emitted for region {reg}")
+    comp, a, c = n["comp"], n["a"], n["c"]
+
+    def mono(q):
+        return q[0] ** a * (q[2] ** c if system == "cyl" else 1)
+    # the Cartesian polynomial the model works with must BE this field (the harness' own frames decide)
+    cart = [fc.merge([[list(e), list(v)] for e, v in comp_terms]) for comp_terms in case["cart"]]
+    frame = fc.frame_of_cart(system)[comp - 1]
+    mine = [mono(fc.curv_coords_of_cart(system)) * frame[j] for j in range(3)]
+    for j in range(3):
+        if sp.simplify(mine[j] - fc.poly_expr(cart[j])) != 0:
+            raise RuntimeError(f"model's Cartesian form of the native field {n} is not the field: component {j + 1}")
+    names = ("r", "theta", "z") if system == "cyl" else ("r", "theta", "phi")
+    label = f"{system}:{names[0]}^{a}" + (f"*z^{c}" if system == "cyl" and c else "") + f"*e_{names[comp - 1]}"
+    name = fc.field_name(cart)
+    for variant, length in (("native, 3 components", 3), ("native, trailing zero components omitted", comp)):
+        field = VectorField(lambda p, length=length: [mono(_coords(p)) if i + 1 == comp else sp.S.Zero
+                                                      for i in range(length)], CURV[system])
+        _run(out, "flux_across_volume_boundary", "flux3", cart, reg, f"{label}: {variant}", False, case["flux3"],
+             [lambda: an.flux_across_volume_boundary(field, *lims)], name=f"{label}={name}")
+    # the flux through the faces (Cartesian form of the same field) must be the same number
+    fieldc = make_field(cart)
+    faces = shell_faces if reg["k"] == "shell" else ball_faces
+    _run(out, "flux_across_surface", "flux3", cart, reg, "std", False, case["flux3"],
+         [lambda f=f: an.flux_across_surface(fieldc, *f) for f in faces(reg, "std")], name=f"{label}={name}")
+    return out.result()
+
+
+def replay_any(case):
+    if "native" in case:
+        return replay_native(case)
+    return replay_case(case)
 
 
 # ---- thorough: trigonometric fields (outside the model; decided by the harness against sympy's own integrals) ----
@@ -369,7 +532,8 @@ def collect(run: Run, results, label):
     for res in results:
         case = res["case"]
         run.traces += 1
-        run.count(json.dumps({"terms": case["terms"], "reg": case["reg"]}, sort_keys=True), n=res["calls"])
+        run.count(json.dumps({"field": case.get("terms", case.get("native")), "reg": case["reg"]}, sort_keys=True),
+                  n=res["calls"])
         for r in res["records"]:
             r["replay"] = case
             per_fn[r["lib"]] = per_fn.get(r["lib"], 0) + 1
@@ -399,7 +563,8 @@ def main() -> int:
                          f"({t['model']['Regions'][2:]})")
         records = []
         for n, emit in enumerate(t["emits"]):
-            cfg2 = write_cfg(sc / f"int_emit{n}.cfg", init="IInit", next_="INext", constants=emit, invariants=["IEmit"])
+            cfg2 = write_cfg(sc / f"int_emit{n}.cfg", init="IInit", next_="INext", constants=emit,
+                             invariants=["IEmit", "INativeEmit"])
             res2 = run_tlc("Integrals", cfg2, sc, workers=1, allow_violation=False)
             run.add_tlc(res2, f"emission {n}: required values for sums of <= {emit['EmitTerms']} basis fields of "
                               f"degree <= {emit['EmitDeg']} on {emit['Regions'][2:]}")
@@ -408,9 +573,9 @@ def main() -> int:
                 raise RuntimeError("TLC emitted no cases")
             for c in cases:
                 c["curved"] = t["curved"]
-            for c in [c for c in cases if len(c["terms"]) == 1][5::97][:4]:
+            for c in [c for c in cases if "native" in c][:1] + [c for c in cases if len(c.get("terms", ())) == 1][5::97][:4]:
                 run.sample({k: v for k, v in c.items() if k != "curved"})
-            results = list(pmap(pool, replay_case, cases, chunk=4))
+            results = list(pmap(pool, replay_any, cases, chunk=4))
             records += collect(run, results, f"emission{n}")
         rejected = set(validate_trace(run, sc, records, "all"))
         selftest_trace(run, sc, [r for i, r in enumerate(records, 1) if i not in rejected])
@@ -428,11 +593,18 @@ def main() -> int:
                               "variants": {"curve": ["std", "retime (t -> 2t)", "shift (t -> t + c)", "rev"],
                                            "surface": ["std", "retime", "rev (parameters swapped)"] +
                                                       (["curved surface with the same boundary"] if t["curved"] else []),
-                                           "box": ["std", "retime", "rev (all normals inward)"]}}
+                                           "box": ["std", "retime", "rev (all normals inward)"],
+                                           "triangle surface": ["std (limits of the first parameter depend on the "
+                                                                "second)", "retime", "rev", "direct (coordinates as "
+                                                                "parameters)"],
+                                           "tetrahedron": ["four faces std / retime", "volume integral with dependent limits"],
+                                           "shell / ball": ["faces std / retime (Cartesian field)", "volume integral in the "
+                                                            "cylindrical / spherical system: re-expressed Cartesian field, "
+                                                            "native fields r^a z^c e_i with 3 and with fewer components"]}}
     run.assumptions += [
         "polynomial fields only (basis monomials and their sums; the functions are linear in the field)",
         "flux_across_curve / flux_across_surface_boundary are exercised on planar problems only (two-component fields "
-        "independent of z in the plane z = 0), as their documentation requires",
+        "in the plane z = 0, given two-component curves / surfaces; components depending on z are taken at z = 0)",
         "orientation reversal is not demanded of flux_across_surface_boundary and flux_across_volume_boundary "
         "(the statement speaks of the outward flux there)",
     ]
@@ -443,7 +615,7 @@ def replay_file(path: str) -> int:
     data = json.loads(open(path).read())
     case = data["case"]
     _init()
-    res = replay_trig(case) if case.get("type") == "trig" else replay_case(case)
+    res = replay_trig(case) if case.get("type") == "trig" else replay_any(case)
     bad = [v for v in res["verdicts"] if v[0] == "violation"]
     with Scratch() as sc:
         run = Run(PID, "replay")
